@@ -115,6 +115,8 @@ class PathMgr:
         self._tupkeys: Dict[int, Any] = {}
         self.ddict_factory: Dict[int, str] = {}
         self.elem_cls: Dict[int, Any] = {}
+        self.not_classobj: set = set()
+        self.cls_cache: Dict[int, Any] = {}       # term id -> (pc length it was derived under, class, exact)
         self.canon_map: Dict[int, Any] = {}
         self.lazy_branching = False
         self.model_cache: List[Any] = []
@@ -291,6 +293,16 @@ class PathMgr:
             print(f'[precise] {r} in {time.time() - t:.1f}s', flush=True)
         return r != z3.unsat
 
+    def implied_by_axioms(self, cond) -> bool:
+        """axioms of the path (facts valid in every execution: typing, heap well-formedness, instantiated universals,
+        callee postconditions) |= cond, without the guards of the current sub-path"""
+        s = z3.Solver()
+        s.set('timeout', 3000)
+        s.add(*self.background())
+        s.add(*[c for c, ax in zip(self.pc, self.pc_axiom) if ax])
+        s.add(z3.Not(smt.simp(cond)))
+        return s.check() == z3.unsat
+
     def implied(self, cond) -> bool:
         """pc |= cond (solver-decided; unknown counts as not implied)"""
         c = smt.simp(cond)
@@ -433,6 +445,9 @@ class PathMgr:
                     self._solver_bg = bg_mark
                     del self.pc[base:]
                     del self.pc_axiom[base:]
+                    # class bounds the solver derived under guards that are gone now are not valid any more
+                    for tid in [t for t, h in self.cls_cache.items() if h[0] > base]:
+                        del self.cls_cache[tid]
                     # whatever was learnt from the GUARDS of this sub-path (exact classes, canonical terms,
                     # static equalities) holds on this sub-path only
                     self.known_cls, self.hint_cls = dict(learnt[0]), dict(learnt[1])
@@ -654,6 +669,12 @@ class PathMgr:
             # inputs and whatever the entry heap references existed before the call
             self.old_terms.add(sv.get_id())
             self._add_axiom(z3.Implies(Val.is_ref(v), Val.r(v) < smt.FRESH_BASE))
+            # ids from 900000 up are process-global objects: an input is one of those only if it IS one that this
+            # path knows (UNSET, a class-level registry ...), never an arbitrary object squatting on such an id
+            gids = sorted({sid for _, sid in getattr(self, 'singletons', [])} |
+                          {i for i in self.static_ids.values() if isinstance(i, int) and i >= 900_000})
+            self._add_axiom(z3.Implies(z3.And(Val.is_ref(v), Val.r(v) >= 900_000),
+                                       z3.Or(*[Val.r(v) == g for g in gids]) if gids else z3.BoolVal(False)))
         for K, sid in getattr(self, 'singletons', []):
             self.use_class(K)
             self._add_axiom(z3.Implies(z3.And(Val.is_ref(v), self.sub_term(smt.cls_of(Val.r(v)), K)), Val.r(v) == sid))
